@@ -21,7 +21,7 @@ RULE = ('Hypothesis: (a) texts assembled from ~110 hostile atoms (Unicode letter
         '(typed programs and grammar sentences) whose identifiers in every role (variable, function, method, pipe target, '
         'parameter, assignment and compound-assignment target) are renamed into a hostile pool: %...% names with spaces, dots, '
         'operators, quotes and #, names adjacent to keywords (nota, inx, r, ra). On one long-lived parser, interleaved with '
-        'parse/eval and lazily consumed generators. Oracles (1)-(4) in the module docstring. Non-trivial: >= 3 names in >= 2 '
+        'parse/eval (1 in 3 also after an eval of the same source that passed ast_names reading foreign names) and lazily consumed generators. Oracles (1)-(4) in the module docstring. Non-trivial: >= 3 names in >= 2 '
         'roles, a %...% name containing an operator/space, a name adjacent to a string/comment/keyword, or a lexically '
         'invalid text; distinct by text.')
 ASSUMPTIONS = ['the reference lexer (sqv/spec/reflex.py) is the reading of the lexical spec',
@@ -189,6 +189,15 @@ def check_text(text, case, prev_text=None):
     elif not ln <= tn:
         bad('listed-name-not-in-tree', f'list_names reports {sorted(ln - tn)!r}, which the tree does not contain')
     # (3) with an empty mapping (every lookup misses) and with a mapping that defines every listed name
+    if len(text) % 3 == 0:
+        # an earlier call in which the host passed ast_names (whose operations read names of the host's choosing) must not
+        # change what later evaluations of the same source ask for
+        try:
+            helper = p.parse('zq2_ * zq3_')
+            p.eval(text, Recording({'zq2_': 2, 'zq3_': 3}), ast_names={'zq1_': helper}, max_ops_evaluated=2000)
+        except Exception:  # noqa
+            pass
+        info['after_ast_names'] = True
     for mapping in (Recording(), Recording({n: 1 for n in ln if n not in ('len', 'str')})):
         try:
             p.eval(text, mapping, max_ops_evaluated=2000)
@@ -255,7 +264,7 @@ def run_job(job):
         case = dict(case, prev=prev[0])
         fails, info = check_text(case['text'], case, prev[0])
         prev[0] = case['text']
-        cls = ['kind:' + case['kind'], 'invalid' if info['invalid'] else ('parsed' if info['parsed'] else 'lexes-only')]
+        cls = ['kind:' + case['kind'], 'invalid' if info['invalid'] else ('parsed' if info['parsed'] else 'lexes-only')] + (['after-ast_names-call'] if info.get('after_ast_names') else [])
         return hyp.Result(fails, nontrivial(case['text'], info), cls, key=case['text'],
                           sample={'text': case['text'], 'names': info['names'], 'lexically_invalid': info['invalid']})
 
